@@ -2,7 +2,7 @@
    Invariant of the specification machine (any storage representation):
    every index in any storage's mask belongs to an entity that is not yet
    dead, and every storage resource is listed in the MetaTable. *)
-From SV Require Import Base.ListX Alloc.LifeProps Store.Masked Store.StoreInv World.Env World.StoreSim World.EnvSim
+From SV Require Import Base.ListX Alloc.LifeProps Store.Masked Store.StoreInv World.Env World.Join World.JoinPres World.StoreSim World.EnvSim
   World.WorldSpec World.Micro World.NoStuck.
 
 Definition masks_live (s : lstate) (e : senv) : Prop :=
@@ -410,7 +410,7 @@ Proof.
     - apply delete_components_covers. assumption.
     - unfold l_kill_res. pose proof (kill_LInv es (s_life w) 0%nat HI) as X.
       destruct (l_kill (s_life w) es 0) as [s' [p|]]; exact X. }
-  destruct o as [k|k|n| |n|built k|k|h|hs|h| | |h|h| |h| |so| |lsid lh lv|lsid ll|lsid lh|prog|qso| ]; cbn [sstep_core op_regs_ok] in *.
+  destruct o as [k|k|n| |n|built k|k|h|hs|h| | |h|h| |h| |so| |lsid lh lv|lsid ll|lsid lh|prog|qso|jk jms|cso| ]; cbn [sstep_core op_regs_ok] in *.
   - specialize (Hcr false (hd_choice cs) k Hr). destruct (s_create false w (hd_choice cs)) as [w1 e]. apply Hcr. exact Hok'.
   - specialize (Hcr false (hd_choice cs) k Hr). destruct (s_create false w (hd_choice cs)) as [w1 e]. cbn [fst] in *.
     apply s_builder_drop_ok in Hok'. specialize (Hcr Hok'). destruct Hcr as [A B C D].
@@ -482,7 +482,14 @@ Proof.
     assert (forall c, PInv (s_with_env w (env_cx e' c))) as Hc.
     { intros c. destruct A as [S1 T1]. split; cbn [s_with_env s_env s_life env_cx se_stores se_table]; auto. split; cbn; auto. }
     assert (PInv (s_with_env w e')) as He by (split; cbn [s_with_env s_env s_life]; assumption).
-    destruct out as [| | | | | | | |r|o| | | | | | | ]; try exact He; [destruct r|destruct o]; try exact He; apply Hc.
+    destruct out as [| | | | | | | |r|o| | | | | | | | | | ]; try exact He; [destruct r|destruct o]; try exact He; apply Hc.
+  - discriminate.
+  - pose proof (env_csop_pres (fun e' => PInv (s_with_env w e'))) as X.
+    assert (forall e' k m, PInv (s_with_env w e') -> PInv (s_with_env w (cs_put e' k m))) as Hcs.
+    { intros e' k m [[A1 A2] B C D]. split; cbn [s_with_env s_env s_life] in *; auto. split; cbn [cs_put se_stores se_table]; assumption. }
+    assert (PInv (s_with_env w (s_env w))) as H0 by (split; cbn [s_with_env s_env s_life]; assumption).
+    specialize (X Hcs (s_env w) (s_hs w) cso H0).
+    destruct (env_csop (s_env w) (s_hs w) cso) as [e' r]. exact X.
   - assumption.
 Qed.
 
